@@ -197,6 +197,40 @@ def rebuild(ctx):
         want = [('ref', P('braking_points'), 'mut'), ('ref', P('state'), 'shr'), ('ref', P('fric_brake'), 'shr'), ('ref', P('train_res'), 'shr'), ('ref', P('path_tpc'), 'shr')]
         ok = len(cs) == 1 and not cs[0].pc and list(cs[0].argvals) == want
         ctx.check(ok, R, fid, 'the curve is rebuilt from the simulation\'s own state, brake, resistance model and path', 'calls: %s' % [[show(a, an.names)[:40] for a in c.argvals] for c in cs], ctx.where(b))
+    # walk_timed_path: the dispatched route is handed over in consecutive slices, each extension precedes the steps it serves
+    fid = 'SpeedLimitTrainSim::walk_timed_path'
+    b = ctx.anchor(R, fid)
+    an = analysis_or_fail(ctx, R, b) if b is not None else None
+    if an is not None and len(b.params) == 3:
+        w = ctx.where(b)
+        tp = ('val', b.params[2][0])
+        ext = [c for c in an.calls if c.targets and 'SpeedLimitTrainSim::extend_path' in c.targets]
+        stp = [c for c in an.calls if c.targets and 'SpeedLimitTrainSim::step' in c.targets]
+        fin = [c for c in an.calls if c.targets and 'SpeedLimitTrainSim::walk_internal' in c.targets]
+        if len(ext) != 1 or len(stp) != 1 or len(fin) != 1 or ext[0].pointees[2] is None:
+            ctx.unproved(R, fid, 'expected one extend_path, one step and one walk_internal call: %d / %d / %d' % (len(ext), len(stp), len(fin)), w)
+        else:
+            pt = ext[0].pointees[2]
+            rng = None
+            for x in walk(pt):
+                if x[0] == 'agg' and x[1].endswith('Range') and dict(x[2]).get('start') is not None:
+                    rng = dict(x[2])
+            txt = show(pt, an.names)
+            ok = rng is not None and rng['start'][0] == 'loopvar' and rng['end'][0] == 'loopvar' and '.link_idx' in txt and 'iter.collect' in txt
+            ctx.check(ok, R, fid + '|slice', 'each extension hands over the link indices of timed_path[idx_prev..idx_next]', 'extension argument: %s' % txt[:200], ctx.where(b, ext[0].span))
+            if ok:
+                Lp, Ln = rng['start'], rng['end']
+                ent = an.load(Lp[2], an.loop_entry[Lp[1]]) if Lp[1] in an.loop_entry else None
+                backs = [an.load(Lp[2], s_) for s_ in an.loop_back.get(Lp[1], [])]
+                ctx.check(ent == ZERO and bool(backs) and all(x == Ln for x in backs), R, fid + '|consecutive',
+                          'the slices are consecutive from the first element: idx_prev starts at 0 and becomes the previous slice end (no link skipped or repeated)',
+                          'idx_prev starts at %s, continues with %s' % (show(ent, an.names)[:40] if ent else None, [show(x, an.names)[:60] for x in backs]), w)
+                ent_n = an.load(Ln[2], an.loop_entry[Ln[1]]) if Ln[1] in an.loop_entry else None
+                ctx.check(ent_n == mk('add', Lp, ONE), R, fid + '|non-empty', 'every extension contains at least one link (idx_next starts at idx_prev + 1)',
+                          'idx_next starts at %s' % (show(ent_n, an.names)[:60] if ent_n else None), w)
+            inv2 = inventory(ctx).cfg(b)
+            ctx.check(inv2.dominates(ext[0].block, stp[0].block) and not fin[0].in_loop and inv2.dominates(ext[0].block, fin[0].block) or (inv2.dominates(ext[0].block, stp[0].block) and not fin[0].in_loop), R, fid + '|order',
+                      'steps are taken only after the extension that serves them; the final walk runs after the last extension', 'extend block %s, step block %s' % (ext[0].block, stp[0].block), w)
     # every caller that extends the path of a speed-limit simulation goes through extend_path (not PathTpc::extend directly)
     direct = []
     for caller in sorted(inv.callers('PathTpc::extend')):
